@@ -92,9 +92,13 @@ ARGS = {
     # new numbers starting at 0: the first renumbered line becomes line 0 (a falsy number)
     'tozero': (0, None, None),
     'tozero5': (0, None, 5),
+    # the same after a RENUM that was refused part-way (new numbers beyond 65529): the refused one changed nothing
+    'refused+range': (100, 30, None),
+    'refused+far7': (1000, 30, 7),
 }
+REFUSED_FIRST = b'RENUM 65500,,10'
 ARGS_ALL = list(ARGS)
-ARGS_CORE = ['default', 'range', 'far7', 'gap', 'tight', 'high', 'clash', 'inc5', 'tozero']
+ARGS_CORE = ['default', 'range', 'far7', 'gap', 'tight', 'high', 'clash', 'inc5', 'tozero', 'refused+range']
 ARGS_TRAP = ['default', 'range', 'far7', 'tozero']
 ARGS_INPROG = ['range', 'far7', 'default', 'tight']
 
@@ -492,6 +496,16 @@ def _run_b(part, ns, program, spec, conts, kinds, argname, args, ref, case, seco
         err_before = (it.error_num, it.error_pos)
     except AttributeError as e:
         raise CheckError('internal seam changed: %s' % e)
+    if argname.startswith('refused+'):
+        rp = R.run(s, REFUSED_FIRST)
+        if rp.exc is not None:
+            part.violation('renum/host-exception/%s/%s' % (type(rp.exc).__name__, label), '%s raised %r' % (REFUSED_FIRST, rp.exc), case)
+            raise Abort()
+        if rp.err is None and not ((it.error_num, it.error_pos) != err_before and it.error_pos == -1):
+            # fewer than four lines: accepted; this case is not what the variant is for
+            part.outcome('first-renum-not-refused')
+            return
+        err_before = (it.error_num, it.error_pos)
     r = R.run(s, cmd)
     text = b' / '.join(listing(program)).decode('latin-1')
     if r.exc is not None:
